@@ -30,7 +30,7 @@ class StrRegister(Opcode):
                     processor.registers.get(self.n), offset, 32)
                 address = offset_addr if self.index else processor.registers.get(self.n)
                 if self.t == 15:
-                    data = processor.registers.pc_store_value()
+                    data = processor.registers.get_pc()
                 else:
                     data = processor.registers.get(self.t)
                 if (processor.unaligned_support() or lower_chunk(address, 2) == 0b00 or
